@@ -502,8 +502,9 @@ def drive_snaplist(case):
     """A detail whose callback serves an in-memory list is gathered, then the list is mutated."""
     import testtools
     from testtools import content as C, testcase
+    from testtools.content_type import UTF8_TEXT      # the public home of the constant (content.py may not re-export it)
     get, mutate = _list_source(case)
-    c = C.Content(C.UTF8_TEXT, get)
+    c = C.Content(UTF8_TEXT, get)
 
     via = case["via"]
     if via == "copy":
